@@ -64,6 +64,7 @@ def check(ctx):
     generic.memo_projection(ctx, ("dataiter.list_of_dicts",), "select / rename / modify change only the named keys of each item, in the item's own key order")
     generic.wrapper_must_call(ctx, [f for f in generic.module_functions(repo, "dataiter.deco")],
                               "append / extend / insert / + return the receiver's items followed by the argument's")
+    ctx.rule("CMP-asis", "filter / filter_out compare the item's value as stored, not a transformed copy")
     for r, t in (("SIB-12", "filter/filter_out: same extraction, complementary tests, single pass"),
                  ("SIB-3", "head/tail/sample clamp n"), ("GRD-negslice", "no negated slice bound that can be 0"),
                  ("MPT-4", "insert delivers the item on every path"),
@@ -107,6 +108,19 @@ def check(ctx):
         if rec["kv"] is not None and exn and valn:
             op, val, loops = rec["kv"]
             rec["kv"] = (op, val, loops)
+        # CMP-asis: the item side of the key=value comparison is the extractor's result itself.  itemgetter already returns
+        # the bare value for one key and a tuple for several; wrapping the *item's* value (`as_tuple(extract(item))`) makes an
+        # item value that is itself a tuple indistinguishable from a tuple of several keys' values.
+        if exn:
+            for cmpn in [n for n in ast.walk(fn.node) if isinstance(n, ast.Compare)]:
+                for side in [cmpn.left] + list(cmpn.comparators):
+                    inner = [c for c in ast.walk(side) if isinstance(c, ast.Call) and isinstance(c.func, ast.Name) and c.func.id == exn]
+                    if inner:
+                        okc = side is inner[0]
+                        ctx.ob("CMP-asis", fn, f"item side of {norm(cmpn)[:50]}", cmpn, okc,
+                               "the extracted value is compared as it is stored in the item" if okc else
+                               f"`{norm(side)[:50]}` transforms the item's value before the comparison: an item value of the wrapped shape "
+                               f"(a tuple) no longer equals the value the caller asked for", clause="partition by key=value condition")
         if rec["callable"] is None or rec["kv"] is None or rec["extract"] is None:
             raise AnalysisError(f"{fn.qualname}: cannot extract the filter feature record ({rec}); idiom changed")
         recs[fn.name] = rec
